@@ -558,8 +558,16 @@ def fault_scenarios(cfg, maxsize):
             for p in sorted(set([0, s // 2, s])):
                 ops += ["insert 0 %d v7" % p, "insert_rv 0 %d v7" % p, "emplace 0 %d v7" % p, "insert_n 0 %d 2 v7" % p,
                         "insert_n 0 %d 3 v7" % p, "insert_range 0 %d fwd 7,8,9" % p, "insert_range 0 %d inp 7,8" % p]
+            # transfers of whole contents: move construction / move assignment / swap (element by element between inline
+            # storages), also into and from a second container of another size
+            ops += ["ctor_move 1 0", "move_assign 1 0", "swap 0 1", "swap 1 0"]
             for o in ops:
-                if o.startswith("copy_assign"):
+                if o.startswith(("move_assign", "swap")):
+                    sc.append((pre + ["ctor_range 1 fwd 1,2"], o))
+                    sc.append((pre + ["ctor_default 1"], o))
+                    if top >= 4:
+                        sc.append((pre + ["ctor_range 1 fwd 1,2,3,4"], o))
+                elif o.startswith("copy_assign"):
                     sc.append((pre + ["ctor_range 1 fwd 1,2"], o))
                     sc.append((pre + ["ctor_range 1 fwd 1,2,3,4,5,6,7"][: 1 if top >= 7 else 0] + (["ctor_default 1"] if top < 7 else []), o))
                 else:
